@@ -64,7 +64,9 @@ def raw_stem(draw, long_bias=0.5):
 
 @st.composite
 def path_stem(draw, long_bias=0.25):
-    kind = draw(st.sampled_from([b"p:", b"p:", b"p:", b"q:", b"f:"]))
+    if draw(st.integers(0, 24)) == 0:
+        return b"|"          # the empty stem: well-formed (zero non-separator bytes closed by '|')
+    kind = draw(st.sampled_from([b"p:", b"p:", b"p:", b"q:", b"f:", b"P:"]))
     r = draw(st.floats(0, 1))
     if r < long_bias:
         n = draw(st.sampled_from([72, 73, 74, 75, 76, 147, 148, 149, 222, 223, 300]))
@@ -77,7 +79,7 @@ def path_stem(draw, long_bias=0.25):
 
 
 HOST_VOCAB = [b"h:com|", b"h:fr|", b"h:a|", b"h:b|", b"h:www|", b"h:twitter|", b"h:c|"]
-SPECIAL_HOSTS = [b"h:localhost|", b"h:127.0.0.1|", b"h:\xff\xfe|"]
+SPECIAL_HOSTS = [b"h:localhost|", b"h:127.0.0.1|", b"h:\xff\xfe|", b"h:LOCALHOST|", b"h:[FE80::1]|", b"h:[fe80::1]|"]
 SCHEMES = [b"s:http|", b"s:http|", b"s:https|", b"s:https|", b"s:ftp|"]
 PORTS = [b"t:80|", b"t:8080|"]
 
@@ -100,8 +102,13 @@ class Vocab(object):
 def vocab(draw, modes=("url", "raw", "mixed"), long_bias=0.25):
     mode = draw(st.sampled_from(list(modes)))
     hosts = list(HOST_VOCAB)
-    if draw(st.integers(0, 5)) == 0:
-        hosts.append(draw(st.sampled_from(SPECIAL_HOSTS)))
+    if draw(st.integers(0, 3)) == 0:
+        # lone-host forms of the rules (localhost, IP literals), spellings that match them only case-insensitively, odd bytes;
+        # placed FIRST too, so that they are drawn as the single (TLD-position) host
+        sp = draw(st.sampled_from(SPECIAL_HOSTS))
+        hosts.append(sp)
+        if draw(st.booleans()):
+            hosts.insert(0, sp)
     npaths = draw(st.integers(3, 6))
     paths = draw(st.lists(path_stem(long_bias), min_size=npaths, max_size=npaths, unique=True))
     raws = []
